@@ -73,19 +73,28 @@ class PyTemp:
 
 
 class RecordingSHA1:
-    """Uninterpreted hash: digest() is a fixed function of the ORDER in which hashers were created; `fed` is what was hashed."""
+    """Uninterpreted hash: digest() is an injective function of the bytes fed (equal contents -> equal digests, distinct contents ->
+    distinct digests, numbered in order of first appearance); `fed` is what was hashed."""
     made = []
+    table = []
 
     def __init__(self, data=b''):
         self.fed = data
-        self.idx = len(RecordingSHA1.made)
         RecordingSHA1.made.append(self)
 
     def update(self, data):
         self.fed = self.fed + data
 
     def digest(self):
-        return bytes([65 + self.idx % 26]) * 20
+        idx = None
+        for i, content in enumerate(RecordingSHA1.table):
+            if len(content) == len(self.fed) and content == self.fed:
+                idx = i
+                break
+        if idx is None:
+            idx = len(RecordingSHA1.table)
+            RecordingSHA1.table.append(self.fed)
+        return bytes([65 + idx % 26, 65 + (idx // 26) % 26]) * 10
 
     def b32(self):
         return base64.b32encode(self.digest()).decode()
@@ -126,6 +135,7 @@ def install(fs):
     if not getattr(fs, '_env_installed', False):      # a second recorder on the same file system continues the id sequence
         fs._env_installed = True
         RecordingSHA1.made = []
+        RecordingSHA1.table = []
         _Counter.n = 0
         PyTemp._n = 0
     WF.hashlib = types.SimpleNamespace(sha1=RecordingSHA1)
